@@ -151,9 +151,34 @@ def parse_sanitizer(stderr):
     return kind, top, site
 
 
+_SYM = {}
+
+
+def symbolize(detail):
+    """Replace code addresses of the simulator binary (ASLR is off: text at 0x5555...) in a violation detail by function
+    names, so that call sites can be read and known findings can be keyed on them."""
+    addrs = sorted(set(re.findall(r"0x5555[0-9a-f]{8}", detail or "")))
+    todo = [a for a in addrs if a not in _SYM]
+    if todo:
+        try:
+            offs = [hex(int(a, 16) - 0x555555554000) for a in todo]
+            out = subprocess.run(["addr2line", "-f", "-e", NNGSIM] + offs, capture_output=True, text=True, timeout=60).stdout.split("\n")
+            for i, a in enumerate(todo):
+                fn = out[2 * i].strip() if 2 * i < len(out) else ""
+                _SYM[a] = fn if fn and fn != "??" else a
+        except Exception:
+            for a in todo:
+                _SYM[a] = a
+    for a in addrs:
+        detail = detail.replace(a, _SYM.get(a, a))
+    return detail
+
+
 def classify(r):
     """-> (kind, cls, sig, detail)   kind in ok|inconclusive|violation|infra"""
     st = r.get("status")
+    if st == "violation" and "0x5555" in (r.get("detail") or ""):
+        r["detail"] = symbolize(r["detail"])
     if st == "ok":
         return ("ok", "", "", "")
     if st == "inconclusive":
